@@ -38,4 +38,21 @@ PROPS = {
                    evals=dict(M="mc_mismatches", V="c02_violations", NT="c02_nontrivial", NL="c02_linear_count"),
                    counts=("NT", "NL"))],
     ),
+    "C03": dict(
+        level="proof",
+        rule="match component in mode c03: every case is evaluated 6 times with all maps rebuilt in shuffled insertion order "
+             "(Go also randomises iteration per range), canonical multisets and outcome classes compared, deep snapshots of "
+             "pattern/message/bindings before and after, returned maps checked for identity against each other and the inputs "
+             "and mutated; matchconc: one shared (pattern, message, bindings) matched by 16 goroutines x 4, binary built with "
+             "-race. non-trivial = a pattern or message with a map/array of at least two entries and a result or an error.",
+        trusted=MATCH_TRUSTED + ["the Go memory model is not modelled: data-race freedom of concurrent Match is observed "
+                                 "(race detector on the schedules that happen), not proved (partial)"],
+        assumptions=["an order oracle is a deterministic function of the list it permutes"],
+        runs=[dict(component="match", require="Corr.MatchCorr", require_vo="Corr/MatchCorr.vo",
+                   n=dict(quick=900, thorough=24000), shard=700, opts=dict(mode="c03"),
+                   evals=dict(M="mc_mismatches", V="c03_violations")),
+              dict(component="matchconc", require="Corr.MatchCorr", require_vo="Corr/MatchCorr.vo", race=True,
+                   n=dict(quick=150, thorough=3000), shard=700,
+                   evals=dict(M="mc_mismatches", V="c03_violations"))],
+    ),
 }
